@@ -101,6 +101,26 @@ def main():
                 if he is not None:
                     attempt(res, 'rejoined', lambda: tof.Q_vec_from_Q_elements(Qx=he['h'], Qy=he['k'], Qz=he['l']))
         res['inputs_unchanged'] = all(sc.identical(a, b, equal_nan=True) for a, b in zip((lam, bi, bf, R, U, B), snap))
+        # components with two dimensions, one of them stored in the other dim ORDER (e.g. after a transpose upstream):
+        # joining must pair elements by dimension LABEL; splitting the result must give the components back
+        try:
+            import numpy as np
+            na, nb = (3, 3) if g['id'] % 2 == 0 else (2, 4)
+            base = np.arange(na * nb, dtype=float).reshape(na, nb) + 100.0 * g['id']
+            qx = sc.array(dims=['a', 'b'], values=base, unit='1/angstrom')
+            qy = sc.array(dims=['a', 'b'], values=base + 0.25, unit='1/angstrom').transpose(['b', 'a']).copy()
+            qz = sc.array(dims=['a', 'b'], values=base + 0.5, unit='1/angstrom')
+            j = tof.Q_vec_from_Q_elements(Qx=qx, Qy=qy, Qz=qz)
+            bad = []
+            for ia in range(na):
+                for ib in range(nb):
+                    got = [float(c) for c in j['a', ia]['b', ib].value]
+                    want = [float(base[ia, ib]), float(base[ia, ib] + 0.25), float(base[ia, ib] + 0.5)]
+                    if got != want:
+                        bad.append({'a': ia, 'b': ib, 'got': got, 'want': want})
+            res['join2d'] = {'shape': [na, nb], 'mismatch': bad[:3], 'n_mismatch': len(bad)}
+        except Exception as ex:
+            res['join2d'] = {'error': type(ex).__name__, 'error_text': str(ex)[:200]}
         out.append(res)
     print('RESULT ' + json.dumps({'groups': out, 'scipp': sc.__version__}))
 
